@@ -15,7 +15,7 @@ RULE = ("the C15 configuration space (model tags x rated power x all subsets of 
 ASSUMPTIONS = ["the simulated inverter answers every read with exactly 2 x count payload bytes",
                "values decoded from a refused block's predecessor response would also show as foreign reads in C12/C15; this "
                "check decides only 'no reported value is fabricated from missing bytes'"]
-MUST = ["single_reads_observed", "overlapping_polls", "poll_with_transient_rejection", "poll_after_failed_device_info", "tcp_wrong_mbap_length", "configs_run", "reads_observed", "block_running", "block_battery", "block_battery2", "block_meter_basic",
+MUST = ["offered_sensors_checked", "single_reads_observed", "overlapping_polls", "poll_with_transient_rejection", "poll_after_failed_device_info", "tcp_wrong_mbap_length", "configs_run", "reads_observed", "block_running", "block_battery", "block_battery2", "block_meter_basic",
         "block_meter_ext", "block_meter_ext2", "block_mppt", "block_dt_running", "block_dt_meter", "block_es_runtime"]
 EXHAUSTIVE = {"quick": False, "thorough": True}
 
@@ -120,9 +120,27 @@ def check_config(cfg, part, rl, port=8899, mbap=None, rerun_info=False):
                 part.count(b)
     if fam == "ES" and any(c == "0106" for _, _, c, _ in sim.aa55_log):
         part.count("block_es_runtime")
-    # short reads -> attribute
     seen = set()
     inv = res["inv"]
+    # clause 1: every sensor OFFERED after the last successful poll lies inside a window that this poll fetched
+    polls = res.get("poll_windows") or []
+    last = next((w for ok_, w in reversed(polls) if ok_), None)
+    if fam != "ES" and last is not None:
+        for sn in res.get("sensors_after_polls", ()):
+            size = getattr(sn, "size_", 0)
+            if size <= 0:
+                continue
+            lo, hi = sn.offset, sn.offset + (size + 1) // 2 - 1
+            part.count("offered_sensors_checked")
+            if not any(a <= lo and hi <= a + c - 1 for a, c in last):
+                win = next(((a, c) for a, c in last if a <= lo <= a + c - 1), None) or min(last, key=lambda w: abs(w[0] - lo))
+                blk = BLOCK_OF.get(win, f"block_{win[0]}x{win[1]}").replace("block_", "")
+                key = f"C14/{fam}/{blk}/read-past-window/{sn.id_}"
+                if key not in seen:
+                    seen.add(key)
+                    part.violate(key, f"{tag}: sensors() offers {sn.id_} at registers {lo}..{hi}, but the last poll fetched only "
+                                      f"{[(a, a + c - 1) for a, c in last]}: its value cannot come from fetched bytes", case)
+    # short reads -> attribute
     for (call_i, resp, pos, size, ret) in res["short_reads"]:
         cmd = resp.command
         first, count = getattr(cmd, "first_address", None), getattr(cmd, "value", None)
